@@ -260,6 +260,10 @@ def generate(tier):
         "as_ref_cell_without_unsafe": ("*h.rslot.as_ref_cell().borrow_mut() = Some(child);", ""),
         "as_once_cell_without_unsafe": ("let _ = h.oslot.as_once_cell().set(child);", ""),
         "unlock_unchecked_without_unsafe": ("use gc_arena::barrier::Unlock; h.slot.unlock_unchecked().set(Some(child));", ""),
+        "field_macro_with_unsafe_argument": ("field!(Write::assume(&*h), Holder, slot).unlock().set(Some(child));", ""),
+        "unlock_macro_with_unsafe_argument": ("unlock!(Write::assume(&*h), Holder, slot).set(Some(child));", ""),
+        "field_macro_with_unsafe_cell_argument": ("field!(Gc::write(mc, h), Holder, slot).unlock(); field!({ h.slot.as_cell().set(Some(child)); Gc::write(mc, h) }, Holder, slot);", ""),
+        "unsize_macro_with_unsafe_argument": ("let p = Gc::as_ptr(h.gc); let _d = gc_arena::unsize!(Gc::from_ptr(p) => dyn std::any::Any);", ""),
         "lock_has_no_safe_setter": ("h.slot.set(Some(child));", ""),
         "reflock_has_no_safe_borrow_mut": ("*h.rslot.borrow_mut() = Some(child);", ""),
         "field_through_gc_deref": ("field!(field!(Gc::write(mc, h), Holder, gcinner), Inner, slot).unlock().set(Some(child));", ""),
